@@ -175,7 +175,9 @@ func checkRecursiveTemplate(ctx *Ctx, r *Report, ts *tmplSet, rt recTemplate, va
 				file+": the nullable branch does not recurse on the same type with Nullable=false: optional values are not checked at all (or recursion never terminates)")
 		}
 		// struct: ranges over all fields
-		if b := find(func(c string) bool { return strings.Contains(c, ".IsStruct") && !strings.Contains(c, "resolvesToStruct") }); b == nil {
+		if b := find(func(c string) bool {
+			return strings.Contains(c, ".IsStruct") && !strings.Contains(c, "resolvesToStruct")
+		}); b == nil {
 			r.Bad("traverse/template-reach", rt.define+" struct branch", token.NoPos, file+": no branch for inline structs")
 		} else {
 			var rng *parse.RangeNode
@@ -219,7 +221,9 @@ func checkRecursiveTemplate(ctx *Ctx, r *Report, ts *tmplSet, rt recTemplate, va
 		}
 	}
 	// referenced struct: delegate to the referee's method
-	if b := find(func(c string) bool { return strings.Contains(c, "resolvesToStruct") || strings.Contains(c, "typeHasEqualityFunc") }); b == nil {
+	if b := find(func(c string) bool {
+		return strings.Contains(c, "resolvesToStruct") || strings.Contains(c, "typeHasEqualityFunc")
+	}); b == nil {
 		r.Bad("traverse/template-reach", rt.define+" referenced struct branch", token.NoPos, file+": no branch for references to structs")
 	} else {
 		r.Check(strings.Contains(tmplText(b.body), rt.delegate), "traverse/template-reach", rt.define+" referenced struct branch", token.NoPos, "delegates to the referee's "+rt.delegate,
